@@ -13,6 +13,7 @@ from .models import (
     JWEKeyWrapping,
 )
 from .registry import JWERegistry
+from ..registry import check_disjoint_headers
 from ..errors import (
     JoseError,
     DecodeError,
@@ -98,6 +99,7 @@ def _perform_decrypt(obj: EncryptionData, registry: JWERegistry) -> None:
 
     cek_set = set()
     for recipient in obj.recipients:
+        check_disjoint_headers(*recipient.header_parts())
         headers = recipient.headers()
         registry.check_header(headers, True)
         # Step 6, Determine the Key Management Mode employed by the algorithm
@@ -167,6 +169,7 @@ def pre_encrypt_recipients(
 
 
 def __prepare_recipient_algorithm(recipient: Recipient[t.Any], registry: JWERegistry) -> JWEAlgModel:
+    check_disjoint_headers(*recipient.header_parts())
     headers = recipient.headers()
     registry.check_header(headers)
     # 1. Determine the Key Management Mode employed by the algorithm used
